@@ -181,6 +181,9 @@ class Module(object):
         if not os.environ.get('VERIF_NO_ALPHA'):
             self.inlined_helpers = inline.inline_new_helpers(tree, known)
         self.renamed_locals = alpha.normalise(tree, relpath)
+        if not os.environ.get('VERIF_NO_NNF'):
+            from . import nnf
+            nnf.normalise(tree)
         self.tree = set_parents(tree)
         self.imports = {}    # local alias -> fully qualified dotted target
         self.functions = {}  # qualname -> FuncInfo
